@@ -1,4 +1,4 @@
-// unit float_div: float/src/div.rs `Context::repr_div` (C03 for division: truncated quotient refined to p or p+1 digits,
+// unit float_div: float/src/div.rs `Context::{repr_div, div, inv}` (C03 for division: truncated quotient refined to p or p+1 digits,
 // ONE rounding of the remainder through the contract of `Round::round_ratio` proved in unit float_round).
 #![allow(unused_imports, unused_variables, dead_code, non_snake_case, unused_mut, unused_parens, unused_braces)]
 use vstd::prelude::*;
@@ -23,11 +23,23 @@ global size_of usize == 8;   // DESIGN.md section 6: usize is 64-bit in all proo
 //@@ FN float/mul/assert_finite_operands.rs
 //@@ SIG float/root/panic_unlimited_precision.rs
 //@@ FN float/root/assert_limited_precision.rs
+impl<T, E> Approximation<T, E> {
+//@@ FN base/approx/map.rs
+//@@ FN float/mul/approx_value.rs
+}
 impl<const B: Word> Repr<B> {
 //@@ FN float/repr/is_infinite.rs
+//@@ SIG float/repr/digits.rs
 }
 impl<R: Round> Context<R> {
+//@@ FN float/convert/context_new.rs
+//@@ SIG float/repr/repr_round_ref.rs
 //@@ FN float/div/repr_div.rs drop_asserts=0
+//@@ FN float/div/context_div.rs
+//@@ FN float/div/context_inv.rs
+}
+impl<R: Round, const B: Word> FBig<R, B> {
+//@@ FN float/fbig/new.rs
 }
 } // verus!
 fn main() {}
